@@ -3,6 +3,8 @@
 package cluster
 
 import (
+	"time"
+
 	"go.uber.org/zap"
 
 	"github.com/linkedin/Burrow/core/internal/helpers"
@@ -37,3 +39,16 @@ func (module *KafkaCluster) VerifFetchMetadata() bool { return module.fetchMetad
 
 // VerifSetFetchMetadata sets the fetchMetadata flag (what the metadata ticker does).
 func (module *KafkaCluster) VerifSetFetchMetadata(v bool) { module.fetchMetadata = v }
+
+// VerifStartMainLoop starts the module's real mainLoop on tickers whose channels the caller owns: a value sent on
+// one of them is what the corresponding ticker firing is to the loop.
+func (module *KafkaCluster) VerifStartMainLoop(client helpers.SaramaClient, offsetC, metadataC, reaperC <-chan time.Time) {
+	module.quitChannel = make(chan struct{})
+	module.offsetTicker = &time.Ticker{C: offsetC}
+	module.metadataTicker = &time.Ticker{C: metadataC}
+	module.groupsReaperTicker = &time.Ticker{C: reaperC}
+	go module.mainLoop(client)
+}
+
+// VerifStop is the module's real Stop.
+func (module *KafkaCluster) VerifStop() error { return module.Stop() }
